@@ -664,10 +664,43 @@ func ruleMDASSIGN(c *Ctx) []Obligation {
 		o3.Verdict, o3.Detail = UNDECIDED, strings.Join(wi.problems, "; ")
 	} else {
 		var firstWrite, aG, aM token.Pos
+		// local closures that write through the wrapper: a write happens where they are called
+		winfo := wi.p.TypesInfo
+		writes := func(n ast.Node) bool {
+			found := false
+			ast.Inspect(n, func(m ast.Node) bool {
+				if call, ok := m.(*ast.CallExpr); ok {
+					if se, ok := unparen(call.Fun).(*ast.SelectorExpr); ok && strings.HasPrefix(se.Sel.Name, "Fprint") {
+						if id, ok := unparen(se.X).(*ast.Ident); ok && winfo.ObjectOf(id) == wi.fwVar {
+							found = true
+						}
+					}
+				}
+				return true
+			})
+			return found
+		}
+		writingClosures := map[types.Object]bool{}
 		ast.Inspect(wi.writeTo.Body, func(nd ast.Node) bool {
+			if as, ok := nd.(*ast.AssignStmt); ok && len(as.Lhs) == 1 && len(as.Rhs) == 1 {
+				if fl, ok := as.Rhs[0].(*ast.FuncLit); ok && writes(fl.Body) {
+					if id, ok := as.Lhs[0].(*ast.Ident); ok {
+						writingClosures[winfo.ObjectOf(id)] = true
+					}
+				}
+			}
+			return true
+		})
+		ast.Inspect(wi.writeTo.Body, func(nd ast.Node) bool {
+			if _, ok := nd.(*ast.FuncLit); ok {
+				return false // the body runs where the closure is called
+			}
 			call, ok := nd.(*ast.CallExpr)
 			if !ok {
 				return true
+			}
+			if id, ok := unparen(call.Fun).(*ast.Ident); ok && writingClosures[winfo.ObjectOf(id)] && firstWrite == 0 {
+				firstWrite = call.Pos()
 			}
 			if se, ok := unparen(call.Fun).(*ast.SelectorExpr); ok {
 				switch {
